@@ -161,8 +161,9 @@ def _forward_param_slots(fd):
                       not (i["op"] == "store" and i["ptr"].get("k") == "inst" and i["ptr"]["id"] in fwd)]
 
 
-def inline_helpers(P, caller_name, pred, depth=3):
-    """returns the list of helper names inlined into caller_name (P.functions[caller_name] is replaced when non-empty)"""
+def inline_helpers(P, caller_name, pred, depth=3, replace=True):
+    """returns the list of helper names inlined into caller_name (P.functions[caller_name] is replaced when non-empty and replace is set;
+    with replace=False returns (names, new Function or None) and leaves the program untouched)"""
     f = P.functions[caller_name]
     fd = copy.deepcopy(f.d)
     done = []
@@ -180,9 +181,11 @@ def inline_helpers(P, caller_name, pred, depth=3):
             if _inline_one(fd, cid, g.d):
                 done.append(g.name)
     if not done:
-        return []
+        return [] if replace else ([], None)
     _forward_param_slots(fd)
     nf = Function(fd, P)
+    if not replace:
+        return done, nf
     P.functions[caller_name] = nf
     P._callers = None
     P._addr_taken = None
